@@ -9,6 +9,11 @@
 //   mode private nooverloads  the same with MemoryLeakWarningPlugin::turnOffNewDeleteOverloads()
 //   mode global               the global detector with real operator new / new[] / cpputest_malloc
 //
+// `realloc <old> <new> <size>` is the tracked realloc of block <old> (private: detector.reallocMemory,
+// global: cpputest_realloc_location on malloc blocks); `realloc-fail <old> <size>` is the same call
+// with the PlatformSpecificRealloc seam wrapped so that the platform realloc returns NULL (the seam
+// is restored before the case ends).
+//
 // Nothing in the harness allocates through operator new between a pre and a post action except
 // the test object itself (created and destroyed inside the window by the runner): all
 // bookkeeping lives in static tables and the trace is printed after the run.
@@ -22,6 +27,7 @@
 #include "CppUTest/MemoryLeakDetector.h"
 #include "CppUTest/MemoryLeakWarningPlugin.h"
 #include "CppUTest/MemoryLeakDetectorMallocMacros.h"
+#include "CppUTest/PlatformSpecificFunctions_c.h"
 
 #undef new
 #undef malloc
@@ -34,12 +40,13 @@
 namespace {
 
 enum { MAXT = 48, MAXC = 40, MAXL = 2048, MSG = 12000 };
-enum Kind { K_ALLOC, K_FREE, K_EXPECT, K_IGNORE, K_FAIL };
-enum Note { N_SKIPPED, N_OK, N_DUP, N_NOLIVE };
+enum Kind { K_ALLOC, K_FREE, K_EXPECT, K_IGNORE, K_FAIL, K_REALLOC, K_REALLOC_FAIL };
+enum Note { N_SKIPPED, N_OK, N_DUP, N_NOLIVE, N_BADKIND, N_UNEXPECTED };
 enum AKind { A_NEW, A_NEWARR, A_MALLOC };
 
 struct Cmd {
     int kind; int label; size_t arg; int akind;
+    int label2;                                 // realloc: label of the resulting block
     int note; unsigned num;
 };
 struct TestDef {
@@ -83,7 +90,49 @@ void do_free(Block& b) {
     b.p = 0;
 }
 
+// ---- the PlatformSpecificRealloc seam
+void* (*g_realRealloc)(void*, size_t) = 0;
+bool g_failRealloc = false;
+int g_reallocCalls = 0;
+void* wrapped_realloc(void* p, size_t n) {
+    g_reallocCalls++;
+    if (g_failRealloc) return 0;
+    return g_realRealloc(p, n);
+}
+
+void* do_realloc(Block& b, size_t size, int label) {
+    size_t line = (size_t) (1000 + label);
+    if (!g_global) return g_det->reallocMemory(g_alloc, (char*) b.p, size, FILE_NAME, line);
+    return cpputest_realloc_location(b.p, size, FILE_NAME, line);
+}
+
+void exec_realloc(Cmd& c) {
+    Block& b = g_blocks[c.label];
+    if (!b.p) { c.note = N_NOLIVE; return; }
+    if (g_global && b.akind != A_MALLOC) { c.note = N_BADKIND; return; }   // realloc is for malloc'ed blocks
+    if (c.kind == K_REALLOC) {
+        Block& nb = g_blocks[c.label2];
+        if (c.label2 != c.label && nb.p) { c.note = N_DUP; return; }
+        c.num = g_det->getCurrentAllocationNumber();
+        void* p = do_realloc(b, c.arg, c.label2);
+        if (!p) { c.note = N_UNEXPECTED; return; }
+        int akind = b.akind;
+        b.p = 0;
+        nb.p = p; nb.size = c.arg; nb.akind = akind;
+        memset(p, 0x11, c.arg);
+        c.note = N_OK;
+    }
+    else {
+        g_failRealloc = true;
+        void* p = do_realloc(b, c.arg, c.label);
+        g_failRealloc = false;
+        if (p) { b.p = p; b.size = c.arg; c.note = N_UNEXPECTED; return; }
+        c.note = N_OK;                      // the old block is untouched and still ours
+    }
+}
+
 void exec_mem(Cmd& c) {
+    if (c.kind == K_REALLOC || c.kind == K_REALLOC_FAIL) { exec_realloc(c); return; }
     Block& b = g_blocks[c.label];
     if (c.kind == K_ALLOC) {
         if (b.p) { c.note = N_DUP; return; }
@@ -109,7 +158,7 @@ void run_phase(int t, int ph) {
     for (int i = 0; i < d.n[ph]; i++) {
         Cmd& c = d.cmds[ph][i];
         switch (c.kind) {
-        case K_ALLOC: case K_FREE: exec_mem(c); break;
+        case K_ALLOC: case K_FREE: case K_REALLOC: case K_REALLOC_FAIL: exec_mem(c); break;
         case K_EXPECT: c.note = N_OK; EXPECT_N_LEAKS(c.arg); break;
         case K_IGNORE: c.note = N_OK; IGNORE_ALL_LEAKS_IN_TEST(); break;
         case K_FAIL:
@@ -223,12 +272,16 @@ void emit_cmd(int ph, const Cmd& c) {
     case K_EXPECT: vh::emit("> cmd %s expect %lu", p, (unsigned long) c.arg); break;
     case K_IGNORE: vh::emit("> cmd %s ignore", p); break;
     case K_FAIL: vh::emit("> cmd %s fail", p); break;
+    case K_REALLOC: vh::emit("> cmd %s realloc %d %d %lu", p, c.label, c.label2, (unsigned long) c.arg); break;
+    case K_REALLOC_FAIL: vh::emit("> cmd %s realloc-fail %d %lu", p, c.label, (unsigned long) c.arg); break;
     }
     switch (c.note) {
     case N_SKIPPED: vh::emit("skipped"); break;
-    case N_OK: if (c.kind == K_ALLOC) vh::emit("num %u", c.num); else vh::emit("ok"); break;
+    case N_OK: if (c.kind == K_ALLOC || c.kind == K_REALLOC) vh::emit("num %u", c.num); else vh::emit("ok"); break;
     case N_DUP: vh::emit("dup"); break;
     case N_NOLIVE: vh::emit("nolive"); break;
+    case N_BADKIND: vh::emit("badkind"); break;
+    case N_UNEXPECTED: vh::emit("unexpected-realloc-result"); break;
     }
 }
 
@@ -259,10 +312,17 @@ void run_case(const vh::Case& c) {
             int t = declare_test((int) vh::to_u64(w[1]));
             int ph = w[2] == "o" ? 0 : w[2] == "s" ? 1 : w[2] == "b" ? 2 : w[2] == "t" ? 3 : -1;
             if (t < 0 || ph < 0 || g_tests[t].n[ph] >= MAXC) continue;
-            Cmd cm; cm.kind = -1; cm.label = 0; cm.arg = 0; cm.akind = A_NEW; cm.note = N_SKIPPED; cm.num = 0;
+            Cmd cm; cm.kind = -1; cm.label = 0; cm.label2 = 0; cm.arg = 0; cm.akind = A_NEW; cm.note = N_SKIPPED; cm.num = 0;
             if (w[3] == "alloc" && w.size() >= 6) {
                 cm.kind = K_ALLOC; cm.label = (int) (vh::to_u64(w[4]) % MAXL); cm.arg = (size_t) (vh::to_u64(w[5]) % 4096);
                 if (w.size() >= 7) cm.akind = w[6] == "newarr" ? A_NEWARR : w[6] == "malloc" ? A_MALLOC : A_NEW;
+            }
+            else if (w[3] == "realloc" && w.size() >= 7) {
+                cm.kind = K_REALLOC; cm.label = (int) (vh::to_u64(w[4]) % MAXL); cm.label2 = (int) (vh::to_u64(w[5]) % MAXL);
+                cm.arg = (size_t) (vh::to_u64(w[6]) % 4096);
+            }
+            else if (w[3] == "realloc-fail" && w.size() >= 6) {
+                cm.kind = K_REALLOC_FAIL; cm.label = (int) (vh::to_u64(w[4]) % MAXL); cm.arg = (size_t) (vh::to_u64(w[5]) % 4096);
             }
             else if (w[3] == "free" && w.size() >= 5) { cm.kind = K_FREE; cm.label = (int) (vh::to_u64(w[4]) % MAXL); }
             else if (w[3] == "expect" && w.size() >= 5) { cm.kind = K_EXPECT; cm.arg = (size_t) vh::to_u64(w[4]); }
@@ -289,8 +349,11 @@ void run_case(const vh::Case& c) {
     registry->installPlugin(plugin);
     for (int i = g_ntests - 1; i >= 0; i--) { g_shells[i].t_ = i; registry->addTest(&g_shells[i]); }
 
+    g_realRealloc = PlatformSpecificRealloc;            // wrap the seam for the run only
+    PlatformSpecificRealloc = wrapped_realloc;
     if (g_nooverloads) MemoryLeakWarningPlugin::turnOffNewDeleteOverloads();
     registry->runAllTests(*result);
+    PlatformSpecificRealloc = g_realRealloc;
     if (g_nooverloads) MemoryLeakWarningPlugin::turnOnDefaultNotThreadSafeNewDeleteOverloads();
     g_cur = -1;
 
